@@ -37,6 +37,10 @@ func genStorageCase(t *rapid.T) Case {
 	return Case{Excl: sk.CurrentExclusions(), Ops: sk.GenStorageOps(t, 40)}
 }
 
+func genLifecycleCase(t *rapid.T) Case {
+	return Case{Excl: sk.CurrentExclusions(), Ops: sk.GenLifecycleOps(t, 30)}
+}
+
 // classify attributes a post-revert mismatch to a recorded root cause, by the exact
 // shape of the history (which operations the revert undid) and of the mismatch (which
 // observables differ). Anything else is "revert-mismatch".
@@ -247,5 +251,12 @@ var _ = kit.Register(kit.Prop[Case]{
 	Name: "StorageRevertAcrossTxs",
 	Rule: "same oracles as SnapshotRevert on histories concentrated on the storage journal across the transactions of one block: 2 contracts x 2 slots with a committed (mostly reopened) pre-state of non-zero slots, SSTOREs of values from {the slot's parent value, 0, 1, 2, 3}, nested snapshots and reverts of any live id, mostly Finalise-only transaction boundaries (IntermediateRoot / Commit rare), occasional self-destruct and re-creation; non-trivial = reverts a non-innermost snapshot or reverts in a transaction that is not the first of the state object; distinct = FNV-64 of the case JSON",
 	Gen:  genStorageCase, Run: runCase,
+	Quick: 6000, Thorough: 50000, Chunk: 500, MinNonTrivialPct: 12,
+})
+
+var _ = kit.Register(kit.Prop[Case]{
+	Name: "AccountLifecycleRevert",
+	Rule: "same oracles as SnapshotRevert on histories concentrated on the life cycle of two accounts within a block: transfers incl. zero-value touches, self-destruct (repeated, and again after the account received value), re-creation as evm.Call / evm.create do it, nested snapshots and reverts of any live id, few transaction boundaries; 40% start from a base state committed WITHOUT empty-account clearing that holds 1-2 empty accounts (the only use of deleteEmptyObjects=false; the RIPEMD address, whose touch survives a revert by design, is not among them); non-trivial = reverts a non-innermost snapshot or reverts in a transaction that is not the first of the state object (labels count touches of existing empty accounts and repeated self-destructs after receiving value); distinct = FNV-64 of the case JSON",
+	Gen:  genLifecycleCase, Run: runCase,
 	Quick: 6000, Thorough: 50000, Chunk: 500, MinNonTrivialPct: 12,
 })
